@@ -18,7 +18,7 @@
    users / room members that are reachable but have no connection at the moment, so
    that what is sent to them is stored: storePendingMessage -> IsChatRefresh); the three library
    oracles (url.Parse, url.ParseRequestURI, the SDP parser) are universally
-   quantified functions. *)
+   quantified functions; the sender's own public session id and user id (any strings). *)
 From Coq Require Import List ZArith NArith String Bool Ascii.
 From Verif Require Import gen.Params gen.Schema lib.Json lib.Decode model.ClientMsg corr.Run_C10
   proofs.Decode_proofs proofs.ClientMsg_proofs proofs.ClientMsg_spec proofs.ClientMsg_media.
@@ -149,6 +149,49 @@ Theorem C10_dispatch_complete : forall url_ok requri_ok sdp_ok st i cs,
   classify url_ok requri_ok sdp_ok repaired st i = VDispatch cs -> Forall (call_ok url_ok requri_ok sdp_ok) cs.
 Proof. exact dispatch_complete. Qed.
 
+(* (5) "Other sessions keep working" needs every handler to come back with the locks of the hub released;
+   the early exits are where that goes wrong.  What the model says about the frames that take the
+   "Don't loop messages to the sender" exits - a message or control message whose recipient is the
+   sender's own session id or own (non-empty) user id:
+   - whatever the tree, the state and the frame, nothing that reaches the forwarding part of the two
+     handlers names the sender as recipient (only media signalling to the own session id goes on, to the
+     media server: publishing);
+   - a control message to the sender itself is dropped (no reply, no call, with or without the right to
+     send control messages); a message to the sender itself is dropped, refused by the media validation
+     or handed to the media server.
+   That the real server comes back from these exits able to serve (the observation o_live of
+   corr/Run_C10.v, clause of P_C10 for every frame) is checked on the implementation on every run. *)
+Theorem C10_not_looped : forall url_ok requri_ok sdp_ok fx st i cs,
+  classify url_ok requri_ok sdp_ok fx st i = VDispatch cs -> Forall (not_to_self st) cs.
+Proof. exact not_looped. Qed.
+
+Theorem C10_self_control_dropped : forall st m c,
+  deref (fld "Control" m) = Some c ->
+  to_self st (sfld "Type" (fld "Recipient" c)) (sfld "SessionId" (fld "Recipient" c)) (sfld "UserId" (fld "Recipient" c)) = true ->
+  effect_of (enter_control st m) = {| e_replies := []; e_calls := []; e_exit := false; e_closed := false |}.
+Proof. intros st m c H1 H2. rewrite (self_control_dropped st m c H1 H2). reflexivity. Qed.
+
+Theorem C10_self_message_dropped : forall sdp_ok st m mm,
+  deref (fld "Message" m) = Some mm ->
+  to_self st (sfld "Type" (fld "Recipient" mm)) (sfld "SessionId" (fld "Recipient" mm)) (sfld "UserId" (fld "Recipient" mm)) = true ->
+  match enter_message sdp_ok st m with
+  | VIgnored | VError _ _ => True
+  | VDispatch [CMessage rt _ _ _ (Some d)] => ss_mcu st = true /\ eqs rt "session" && mcu_direct d = true
+  | _ => False
+  end.
+Proof. exact self_message_dropped. Qed.
+
+(* five frames to the sender itself (control / message, by session id / by user id, a "sendoffer") are
+   dropped, an offer to the own session id goes to the media server, the same control message to another
+   session is forwarded; none of the seven is rejected as invalid *)
+Example C10_nonvacuous_self :
+  map (fun j => classify any_ok any_ok any_ok repaired st_room (IDoc j)) ex_self = [VIgnored; VIgnored; VIgnored; VIgnored; VIgnored] /\
+  (exists d, classify any_ok any_ok any_ok repaired st_room (IDoc ex_self_offer) =
+               VDispatch [CMessage "session" "me" "" (JObj [("type", JStr "offer"); ("roomType", JStr "video"); ("payload", JObj [("sdp", JStr "v=0")])]) (Some d)]) /\
+  classify any_ok any_ok any_ok repaired st_room (IDoc ex_control_other) = VDispatch [CControl "session" "abc" "" (JObj [("x", JNum 1)])] /\
+  map (rejected any_ok any_ok) (ex_self ++ [ex_self_offer; ex_control_other]) = [None; None; None; None; None; None; None].
+Proof. exact self_examples. Qed.
+
 (* Non-vacuity: a valid message and a valid hello are dispatched with their fields;
    seven invalid documents of different classes are rejected. *)
 Example C10_nonvacuous :
@@ -199,3 +242,6 @@ Print Assumptions C10_prehello_hello_type.
 Print Assumptions C10_dispatch_complete.
 Print Assumptions C10_media_invalid_rejected.
 Print Assumptions C10_store_total.
+Print Assumptions C10_not_looped.
+Print Assumptions C10_self_control_dropped.
+Print Assumptions C10_self_message_dropped.
